@@ -25,8 +25,10 @@ package tx
 
 // Every pool transaction that consumes an output or a key version produced by
 // another pool transaction is listed after its producer.
+// (The same graph is what the undo of a displaced pool transaction walks to find its
+// dependents - C03: a dependent without its edge stays pending and spends the output again.)
 //@ func Tx.SortUnconfirmedTx
-//@   property C13
+//@   property C13 C03
 //@   uses seqAppendKeeps
 //@   uses seqAppendAdds
 //@   ensures producer_before_token_consumer: result3 == nil ==> (forall c string :: in(result0, c) ==> tokEdges(result0, result1, c, len(result0[c].TxInputs)))
